@@ -164,7 +164,7 @@ theorem C10_unsolicited_harmless (cfg : Cfg) (s s' : State) (l : Label) (hl : l 
 /-- the process a label belongs to -/
 def procOf : Label → Option Proc
   | .rxRead | .rxExit | .rxDrop | .rxPass | .rxLock | .rxDeliver | .rxDoneDrop | .rxUnlock => some .rx
-  | .lock i | .register i | .refuse i | .transmit i | .transmitFail i | .take i | .accept i | .reject i
+  | .lock i | .register i | .refuse i | .transmit i | .transmitFail i | .transmitErr i | .take i | .accept i | .reject i
   | .giveUp i | .giveUpCtx i | .giveUpClosed i | .cancel1 i | .cancel2 i | .nextTry i | .ret i => some (.caller i)
   | _ => none
 
